@@ -35,7 +35,12 @@ func concGroups(env *core.Env, groups int) []core.Case {
 				c["tm"] = "APITrace"
 			case 4: // optimisation with a result channel
 				front, n, strict, cons, obj := coveringProblem(r)
+				if r.Intn(2) == 0 {
+					front, n, strict, cons, obj = starsProblem(r)
+				}
 				c = gen.APICase(front, n, strict, cons, true, obj, gen.Cfg(false, 0, 0, r.Intn(3) == 0, false, false), []gen.M{gen.OpChan("optimal", true)})
+				c["cfg"].(gen.M)["cap"] = r.Intn(3)
+				c["cfg"].(gen.M)["delayUs"] = []int{0, 100}[r.Intn(2)]
 				c["tm"] = "APITrace"
 			case 5: // MaxSAT through WCNF (forwarding goroutine)
 				n := 2 + r.Intn(4)
